@@ -27,6 +27,32 @@ CHECKS = {
             "driven with the same declarations, every recorded error variant is validated by TLC, and an exhaustive "
             "match without wildcard pins the set of variants of every generated error enum.",
             "6 C07"),
+    "C04": ("Deserialize = inner Deserialize then constructor, in every position",
+            "The Deserialize action of the run-time layer (inner result from the environment, then the constructor) is model-checked "
+            "against the declarative statement; the real code is driven with a document matrix (formats x positions x payloads) and "
+            "TLC validates every recorded result, the environment's observation being a serde-derived reference newtype reading the "
+            "same document in the same position.",
+            "6 C04"),
+    "C06": ("non-string FromStr = inner FromStr then constructor",
+            "The FromStr action (Parse error exactly when the inner parse fails, else the constructor's outcome with Validate wrapping) "
+            "is model-checked; recorded from_str calls on boundary, malformed and random texts, each with the inner type's own parse "
+            "result as logged environment, are validated by TLC.",
+            "6 C06"),
+    "C10": ("transparent serialization, round trip",
+            "Serialization events (bytes of the newtype next to the reference encoding) and round-trip events (deserializing the "
+            "serialization of every obtained value) are validated by TLC: transparency always, identity of the round trip for guards with "
+            "idempotent sanitisation whenever the inner value itself round-trips in that format.",
+            "6 C10"),
+    "C11": ("stored values are canonical",
+            "TLC checks on the string alphabet (with std's measured tables) that stored values are fixed points of built-in sanitizer chains; "
+            "the real code re-enters every obtained value through the constructor, TryFrom, Display->FromStr and Serialize->Deserialize and "
+            "TLC validates each recorded result against the constructor's declarative outcome on the stored value and, for idempotent guards, "
+            "against the stored value itself (std's primitives on real Unicode are logged environment).",
+            "6 C11"),
+    "C13": ("views and comparison traits are transparent",
+            "Observation events (every derived view of an obtained value; ==, partial_cmp, cmp, hash of pairs of obtained values, each next "
+            "to the inner values' own answers) are validated by TLC against the Transparent statement of the specification.",
+            "6 C13"),
 }
 
 
